@@ -1,6 +1,6 @@
 (* C07 -- property theorems only: statement + exact + Print Assumptions. *)
 From Coq Require Import List ZArith Reals.
-From LJT Require Import gen.GenDctConst model.Quant model.Dct proofs.QuantCert proofs.QuantProofs proofs.DctProofs proofs.DctRange proofs.RmsBound gen.GenC07Ctl model.C07Ctl proofs.C07CtlProofs model.C07Edge proofs.C07EdgeProofs proofs.DctOrth proofs.DctRound.
+From LJT Require Import gen.GenDctConst model.Quant model.Dct proofs.QuantCert proofs.QuantProofs proofs.DctProofs proofs.DctRange proofs.RmsBound gen.GenC07Ctl model.C07Ctl proofs.C07CtlProofs model.C07Edge proofs.C07EdgeProofs proofs.DctOrth proofs.DctRound proofs.DctAcc proofs.DctE1 proofs.RmsFinal.
 Import ListNotations.
 Local Open Scope Z_scope.
 
@@ -137,6 +137,37 @@ Theorem C07_fdct_rounding_error : forall cf data, cfg_ok cf -> length data = 64%
   Forall2 (fun f l => - rbound cf <= 2 ^ 26 * f - l <= rbound cf) (fdct_islow cf data) (fdct_lin2d data).
 Proof. exact fdct_rounding_error_proof. Qed.
 Print Assumptions C07_fdct_rounding_error.
+
+(* constant accuracy: the integer matrix of the forward flow graph (sums of FIX_* constants) / 2^13 is within
+   1.5 / 8192 of sqrt(8) * dctA, for all 64 entries (Interval) *)
+Theorem C07_fdct_matrix_accuracy : forall k i, (k < 8)%nat -> (i < 8)%nat ->
+  (Rabs (IZR (Mz k i) / 8192 - sqrt 8 * dctA k i) <= 3 / 16384)%R.
+Proof. exact (fun k i Hk Hi => proj1 (matrix_accuracy_cases k i Hk Hi)). Qed.
+Print Assumptions C07_fdct_matrix_accuracy.
+
+(* e1 DISCHARGED: for every block of centred valid samples, jpeg_fdct_islow / 8 is within e1_bound cf (Euclidean norm
+   over the 64 coefficients; e1_bound = rbound/2^26 + 64 * 2.815 * (3/16384) * CENTERJSAMPLE = 5.73 for 8-bit data,
+   i.e. 0.72 sample levels RMS) of the exact real 2-D DCT *)
+Theorem C07_fdct_accuracy : forall cf data, cfg_ok cf -> length data = 64%nat ->
+  Forall (fun x => - centersample cf <= x <= centersample cf) data ->
+  (norm2 64 (fun k => vecZ (fdct_islow cf data) k / 8 - ap 64 dctA2 (vecZ data) k) <= e1_bound cf * e1_bound cf)%R.
+Proof. exact fdct_accuracy_proof. Qed.
+Print Assumptions C07_fdct_accuracy.
+
+(* the block bound with the compress side taken from the MODEL (valid samples, any table of non-zero UINT16 entries,
+   convsamp + jpeg_fdct_islow + start_pass_fdctmgr + quantize): the only hypothesis left is e2, the distance of the
+   reconstruction y from the exact inverse DCT of the dequantised coefficients *)
+Theorem C07_rms_bound_forward_partial : forall cf qtbl samples,
+  cfg_ok cf -> length qtbl = 64%nat -> length samples = 64%nat ->
+  (forall q, In q qtbl -> 1 <= q <= 65535) ->
+  Forall (fun s => 0 <= s <= maxsample cf) samples ->
+  exists coefs, forward_block cf qtbl samples = Some coefs /\
+    forall (y : nat -> R) (e2 : R), (0 <= e2)%R ->
+      (norm2 64 (fun i => y i - ap 64 (tr dctA2) (fun k => vecZ coefs k * vecZ qtbl k) i) <= e2 * e2)%R ->
+      (norm2 64 (fun i => y i - vecZ (convsamp cf samples) i)
+        <= (qnorm qtbl + e1_bound cf + e2) * (qnorm qtbl + e1_bound cf + e2))%R.
+Proof. exact rms_bound_forward_proof. Qed.
+Print Assumptions C07_rms_bound_forward_partial.
 
 (* edge_padding_local: jcprepct.c expand_bottom_edge + jcsample.c expand_right_edge pad a w x h component to
    W x H by replicating the last real row / column: sample (y, x) = image (min y (h-1), min x (w-1)) *)
